@@ -1046,6 +1046,10 @@ fn exec_incoming(wd: &mut World, w: &[&str], run: &mut Run, prop: Prop, key: &mu
         let last = snap_before.poll_interval.as_log();
         let an = get("an") == "1";
         let (rate, deny, ntsn) = if version == 5 { (pl > last && pl != 127, pl == 127, an) } else { (kc == "rate", kc == "deny" || kc == "rstr", kc == "ntsn") };
+        if wd.deny_seen {
+            // a further valid KISS answer while the mark is set: it must survive all of them
+            run.hit(if ntsn { "deny-then-ntsn" } else if rate { "deny-then-rate" } else if deny { "deny-then-deny" } else { "deny-then-unknown-kiss" });
+        }
         if deny && !rate && !ntsn {
             wd.deny_seen = true;
             run.hit("valid-plain-deny");
@@ -1394,7 +1398,7 @@ fn gen_incoming(rng: &mut Rng, g: &GenCfg, prop: Prop, since_timer_ns: &mut u64)
     let kind_w = match prop {
         Prop::C09 => 55,
         Prop::C07 => 40,
-        Prop::C11 => 15,
+        Prop::C11 => 35,
         _ => 30,
     };
     let kiss = rng.below(100) < kind_w;
@@ -1614,7 +1618,24 @@ fn gen_script(rng: &mut Rng, prop: Prop) -> Vec<String> {
             ops.push(format!("timer dt=16000000000 des={}", des));
             let code = if rng.chance(1, 2) { KISS_DENY } else { KISS_RSTR };
             ops.push(format!("incoming dt=1000000 sts=0000000000000001 rcv=0000000000000002 d.v=exp d.org=match d.st=0 d.rid={} d.pl=127 d.an=0 d.mode=4 d.lp=0 d.rx=0000000000000001 d.tx=0000000000000002 d.rd=1 d.rdp=1 d.auth=none d.A=- d.E=- d.U=draft", code));
-            if rng.chance(1, 4) {
+            // 0-2 further answers that must NOT clear the mark: RATE, NTS-NAK, unknown KISS, a stale answer (previous
+            // origin), an answer with a wrong mode, another DENY/RSTR — to the same request or to a new one
+            for _ in 0..rng.usize(0, 2) {
+                if rng.chance(1, 2) {
+                    ops.push(format!("timer dt=16000000000 des={}", des));
+                }
+                let (st, rid, pl, an, org, mode) = match rng.below(7) {
+                    0 | 1 => (0, KISS_RATE, 20, 0, "match", 4),                      // RATE (v5: poll above the last one)
+                    2 => (0, KISS_NTSN, 0, 1, "match", 4),                           // NTS-NAK (v5: authnak flag)
+                    3 => (0, u32::from_be_bytes(*b"XXXX"), 0, 0, "match", 4),        // unknown KISS
+                    4 => (3, 0x7f00_0001, 6, 0, "prev", 4),                          // stale answer
+                    5 => (3, 0x7f00_0001, 6, 0, "match", 1),                         // not a server-mode packet
+                    _ => (0, if rng.chance(1, 2) { KISS_DENY } else { KISS_RSTR }, 127, 0, "match", 4),
+                };
+                ops.push(format!("incoming dt=1000000 sts=0000000000000001 rcv=0000000000000002 d.v=exp d.org={} d.st={} d.rid={} d.pl={} d.an={} d.mode={} d.lp=0 d.rx=0000000000000001 d.tx=0000000000000002 d.rd=1 d.rdp=1 d.auth=none d.A=- d.E=- d.U=draft",
+                    org, st, rid, pl, an, mode));
+            }
+            if rng.chance(1, 5) {
                 ops.push(format!("timer dt=16000000000 des={}", des));
                 ops.push(format!("incoming dt=1000000 sts={:016x} rcv={:016x}{}", rng.next_u64(), rng.next_u64(), gen_clean_answer(rng, &g, prop)));
             }
